@@ -131,8 +131,12 @@ func calleeShort(cl *ssa.Call) string {
 func (c *Ctx) domFacts(f *ssa.Function, blk *ssa.BasicBlock) map[string]bool {
 	out := map[string]bool{}
 	for _, bf := range branchFacts(f) {
+		curEnv = bf.A.Env
 		if bf.Derived && c.opaqueHelper(bf.Via) {
 			continue
+		}
+		if c.seenThrough(bf.A) {
+			continue // the helper's own conditions are reported instead of the call
 		}
 		if mustPassEdges(f, blk, map[edge]bool{bf.E: true}) {
 			tf := "F"
@@ -140,6 +144,40 @@ func (c *Ctx) domFacts(f *ssa.Function, blk *ssa.BasicBlock) map[string]bool {
 				tf = "T"
 			}
 			out[c.atomLabel(bf.A)+":"+tf] = true
+		}
+	}
+	return out
+}
+
+// seenThrough: the atom tests the outcome of a module helper that is not a domain anchor: its internal
+// conditions are expanded into facts, so the call itself is not a condition of its own.
+func (c *Ctx) seenThrough(a Atom) bool {
+	a.Env = nil
+	call, _ := helperOutcome(c.Prog, a)
+	if call == nil {
+		return false
+	}
+	return !c.opaqueHelper(call.Call.StaticCallee())
+}
+
+// predUnit: f plus the non-anchor module helpers it calls (transitively): the code that implements f's definition.
+func (c *Ctx) predUnit(f *ssa.Function) []*ssa.Function {
+	out := []*ssa.Function{f}
+	seen := map[*ssa.Function]bool{f: true}
+	for i := 0; i < len(out); i++ {
+		for _, call := range callsIn(out[i]) {
+			cal := call.Common().StaticCallee()
+			if cal == nil || !c.InModule(cal) || cal.Blocks == nil || seen[cal] || c.opaqueHelper(cal) {
+				continue
+			}
+			seen[cal] = true
+			out = append(out, cal)
+		}
+		for _, cl := range out[i].AnonFuncs {
+			if !seen[cl] {
+				seen[cl] = true
+				out = append(out, cl)
+			}
 		}
 	}
 	return out
@@ -169,7 +207,11 @@ func (c *Ctx) boolReturns(f *ssa.Function) []boolRet {
 	var out []boolRet
 	edgeFact := func(pred, blk *ssa.BasicBlock, facts map[string]bool) {
 		for _, bf := range branchFacts(f) {
+			curEnv = bf.A.Env
 			if bf.Derived && c.opaqueHelper(bf.Via) {
+				continue
+			}
+			if c.seenThrough(bf.A) {
 				continue
 			}
 			if bf.E.From == pred && bf.E.To() == blk {
@@ -319,8 +361,9 @@ func (c *Ctx) checkPred(f *ssa.Function, spec predSpec, what string) {
 // elemStateConsts: constants compared with the State of a non-subject (looked-up / ranged) task in f.
 func (c *Ctx) elemStateConsts(f *ssa.Function) (elem, subj map[string]bool) {
 	elem, subj = map[string]bool{}, map[string]bool{}
-	for _, bf := range branchFacts(f) {
-		l := c.atomLabel(bf.A)
+	note := func(a Atom) {
+		curEnv = a.Env
+		l := c.atomLabel(a)
 		if strings.HasPrefix(l, "E.State==") {
 			elem[strings.TrimPrefix(l, "E.State==")] = true
 		}
@@ -328,6 +371,18 @@ func (c *Ctx) elemStateConsts(f *ssa.Function) (elem, subj map[string]bool) {
 			subj[strings.TrimPrefix(l, "S.State==")] = true
 		}
 	}
+	for _, bf := range branchFacts(f) {
+		if bf.Derived && c.opaqueHelper(bf.Via) {
+			continue
+		}
+		note(bf.A)
+		for _, alt := range bf.Alts {
+			for _, fa := range alt {
+				note(fa.A)
+			}
+		}
+	}
+	curEnv = nil
 	return
 }
 
@@ -420,8 +475,29 @@ func ruleRD1(c *Ctx) {
 		}
 	}
 	c.check(okKind, fn, "filters-by-kind", c.FnPos(rt), "candidates are filtered by the requested kind", "readyTasks does not filter by the kind parameter")
-	// comparator
+	// comparator: a sort.Slice in readyTasks itself, or in a module helper that sorts its slice parameter in place
 	sorts := callsNamed(rt, "sort.Slice", "sort.SliceStable")
+	var sortedArg ssa.Value
+	if len(sorts) == 0 {
+		for _, call := range callsIn(rt) {
+			cal := call.Common().StaticCallee()
+			if cal == nil || !c.InModule(cal) || len(cal.Params) == 0 {
+				continue
+			}
+			inner := callsNamed(cal, "sort.Slice", "sort.SliceStable")
+			if len(inner) != 1 {
+				continue
+			}
+			arg := inner[0].Common().Args[0]
+			if mi, ok := arg.(*ssa.MakeInterface); ok {
+				arg = mi.X
+			}
+			if prm, ok := resolve(arg).(*ssa.Parameter); ok {
+				sorts = inner
+				sortedArg = call.Common().Args[paramIndex(prm)]
+			}
+		}
+	}
 	if len(sorts) != 1 {
 		c.bad(fn, "oldest-first-comparator", c.FnPos(rt), fmt.Sprintf("%d sort.Slice calls in readyTasks, expected 1 with the CreatedAt/ID comparator", len(sorts)))
 		return
@@ -441,6 +517,9 @@ func ruleRD1(c *Ctx) {
 	sorted := resolve(sorts[0].Common().Args[0])
 	if mi, ok := sorts[0].Common().Args[0].(*ssa.MakeInterface); ok {
 		sorted = resolve(mi.X)
+	}
+	if sortedArg != nil {
+		sorted = resolve(sortedArg)
 	}
 	for _, r := range returnsOf(rt) {
 		if len(r.Results) == 1 && (resolve(r.Results[0]) == sorted || c.canon(r.Results[0]) == c.canon(sorted)) {
@@ -554,32 +633,34 @@ func ruleRD2(c *Ctx) {
 			"the states that satisfy a dependency here are "+setString(elem)+"; the definition says {canceled, done}: ready/blocked/blocker views disagree")
 	}
 	// the dependency loops range over Deps[task.ID] and the epic loop over Deps[epicID] / all tasks
-	rangesOver := func(f *ssa.Function, field string, keyField string) bool {
+	rangesOver := func(f0 *ssa.Function, field string, keyField string) bool {
 		found := false
-		eachInstr(f, func(r instrRef) {
-			rg, ok := r.In.(*ssa.Range)
-			if !ok {
-				return
-			}
-			x := resolve(rg.X)
-			if keyField == "" {
-				if _, n, ok := fieldLoad(x); ok && n == field {
-					found = true
+		for _, f := range c.predUnit(f0) {
+			eachInstr(f, func(r instrRef) {
+				rg, ok := r.In.(*ssa.Range)
+				if !ok {
+					return
 				}
-				return
-			}
-			if lk, ok := x.(*ssa.Lookup); ok {
-				if _, n, ok := fieldLoad(lk.X); ok && n == field {
-					if keyField == "P" {
-						if _, ok := resolve(lk.Index).(*ssa.Parameter); ok {
-							found = true
-						}
-					} else if _, kn, ok := fieldLoad(lk.Index); ok && kn == keyField {
+				x := resolve(rg.X)
+				if keyField == "" {
+					if _, n, ok := fieldLoad(x); ok && n == field {
 						found = true
 					}
+					return
 				}
-			}
-		})
+				if lk, ok := x.(*ssa.Lookup); ok {
+					if _, n, ok := fieldLoad(lk.X); ok && n == field {
+						if keyField == "P" {
+							if _, ok := resolve(lk.Index).(*ssa.Parameter); ok {
+								found = true
+							}
+						} else if _, kn, ok := fieldLoad(lk.Index); ok && kn == keyField {
+							found = true
+						}
+					}
+				}
+			})
+		}
 		return found
 	}
 	c.check(rangesOver(isReady, "Deps", "ID"), c.Name(isReady), "a:scans-own-deps", c.FnPos(isReady), "scans graph.Deps[task.ID]", "isReady does not scan graph.Deps[task.ID]")
@@ -810,6 +891,7 @@ func ruleVD4(c *Ctx) {
 			// both lookups (row and column) must have succeeded
 			n := 0
 			for _, bf := range branchFacts(vt) {
+				curEnv = bf.A.Env
 				if bf.Holds && strings.HasPrefix(c.atomLabel(bf.A), "lookup-ok") && mustPassEdges(vt, r.Block(), map[edge]bool{bf.E: true}) {
 					n++
 				}
@@ -849,6 +931,7 @@ func ruleVD4(c *Ctx) {
 			}
 			// constants of NewState equality edges that can lead here
 			for _, bf := range branchFacts(re) {
+				curEnv = bf.A.Env
 				if bf.A.Kind == "const" && bf.Holds {
 					if _, n, ok := fieldLoad(bf.A.X); ok && n == "NewState" && (bf.E.To() == r.Blk || reach(bf.E.To(), nil, nil)[r.Blk] && sameCase(bf.E.To(), r.Blk)) {
 						clears[constStr(bf.A.C)] = true
@@ -883,6 +966,7 @@ func ruleVD4(c *Ctx) {
 			// a switch with several labels: the state constants reaching this return
 			if len(states) == 0 {
 				for _, bf := range branchFacts(vci) {
+					curEnv = bf.A.Env
 					if bf.A.Kind == "const" && bf.Holds && constStr(bf.A.C) != "" && reach(bf.E.To(), nil, nil)[r.Block()] {
 						// only edges whose target leads to this return without passing another state test's true edge
 						if directCase(vci, bf.E, r.Block()) {
@@ -913,6 +997,7 @@ func ruleVD4(c *Ctx) {
 				return
 			}
 			for _, bf := range branchFacts(bse) {
+				curEnv = bf.A.Env
 				if bf.A.Kind == "const" && bf.Holds && constStr(bf.A.C) != "" && reach(bf.E.To(), nil, nil)[r.Blk] && directCase(bse, bf.E, r.Blk) {
 					if k, _ := lookupKeyOf(bf.A.X); k == "state" {
 						implicit[constStr(bf.A.C)] = true
@@ -933,6 +1018,7 @@ func ruleVD4(c *Ctx) {
 				}
 				pred := ph.Block().Preds[i]
 				for _, bf := range branchFacts(bse) {
+					curEnv = bf.A.Env
 					if bf.A.Kind == "const" && bf.Holds && constStr(bf.A.C) != "" && (bf.E.To() == pred || bf.E.To() == ph.Block() && bf.E.From == pred) {
 						if k, _ := lookupKeyOf(bf.A.X); k == "state" {
 							clearedInBuilder[constStr(bf.A.C)] = true
@@ -976,6 +1062,7 @@ func directCase(f *ssa.Function, e edge, blk *ssa.BasicBlock) bool {
 	}
 	removed := map[edge]bool{}
 	for _, bf := range branchFacts(f) {
+		curEnv = bf.A.Env
 		if bf.A.Kind == "const" && bf.Holds && bf.E != e {
 			removed[bf.E] = true
 		}
